@@ -938,6 +938,7 @@ func (m *metaRun) exec(line string) string {
 					vid = *obj.VersionID
 				}
 				out = strings.Join([]string{"obj", m.nameVid(vid), tokBytes(obj.ETag), strconv.FormatInt(obj.Size, 10), m.lmName(obj.LastModified), metaOpt(obj.ContentType), tokBytes(string(body))}, ":")
+				m.opETag[i] = obj.ETag // a later `im#i` names the ETag this result showed (Meta.res_etag)
 			}
 			m.checkRangeRead(f[1], f[2], v, br, body, err, out)
 		case "upc":
